@@ -137,14 +137,14 @@ Qed.
 Lemma nth_bincount_reduce a b i :
   nth i (bincount_reduce a b) 0 = nth i a 0 + nth i b 0.
 Proof.
-  unfold bincount_reduce. destruct (Nat.leb_spec (length b) (length a)).
+  unfold bincount_reduce, m_br_cond. destruct (Nat.leb_spec (length b) (length a)).
   - apply nth_add_prefix. exact H.
   - rewrite nth_add_prefix by lia. lia.
 Qed.
 Lemma length_bincount_reduce a b :
   length (bincount_reduce a b) = Nat.max (length a) (length b).
 Proof.
-  unfold bincount_reduce. destruct (Nat.leb_spec (length b) (length a)).
+  unfold bincount_reduce, m_br_cond. destruct (Nat.leb_spec (length b) (length a)).
   - rewrite length_add_prefix by exact H. lia.
   - rewrite length_add_prefix by lia. lia.
 Qed.
